@@ -237,6 +237,9 @@ func (rw *rewriter) rewriteFile(f *ast.File) {
 	if nmap != 0 {
 		die("%s: %d range-over-map statement(s) were not rewritten", rw.file, nmap)
 	}
+	if *raceMode {
+		rw.raceExprs(f)
+	}
 	rw.fixRecv2(f)
 	rw.fixExprs(f)
 	rw.audit(f)
@@ -625,6 +628,207 @@ func (rw *rewriter) replaceExpr(e ast.Expr) ast.Expr {
 		}
 	}
 	return nil
+}
+
+// --- race build (C12): memory-access instrumentation -------------------------------
+//
+// Tracked: every map operation (index, assignment, delete, len, range: the map
+// is one location, as for Go's race detector), reads and writes of struct
+// fields reached through a pointer, and the object graphs handed to
+// encoding/json. Not tracked: locals, package-level variables, slices.
+
+func (rw *rewriter) isFieldThroughPointer(sel *ast.SelectorExpr) bool {
+	s := rw.info.Selections[sel]
+	if s == nil || s.Kind() != types.FieldVal {
+		return false
+	}
+	if s.Indirect() {
+		return true
+	}
+	if t := rw.typeOf(sel.X); t != nil {
+		if _, ok := t.Underlying().(*types.Pointer); ok {
+			return true
+		}
+	}
+	return false
+}
+
+func (rw *rewriter) raceExprs(f *ast.File) {
+	writes := map[ast.Expr]bool{}
+	skip := map[ast.Expr]bool{}
+	fnOf := map[ast.Node]string{}
+	_ = fnOf
+	ast.Inspect(f, func(n ast.Node) bool {
+		switch s := n.(type) {
+		case *ast.AssignStmt:
+			if s.Tok != token.DEFINE {
+				for _, l := range s.Lhs {
+					writes[unparen(l)] = true
+				}
+			}
+		case *ast.IncDecStmt:
+			writes[unparen(s.X)] = true
+		case *ast.UnaryExpr:
+			if s.Op == token.AND {
+				skip[unparen(s.X)] = true
+			}
+		case *ast.RangeStmt:
+			if s.Tok == token.ASSIGN {
+				if s.Key != nil {
+					writes[unparen(s.Key)] = true
+				}
+				if s.Value != nil {
+					writes[unparen(s.Value)] = true
+				}
+			}
+		}
+		return true
+	})
+	done := map[ast.Expr]bool{}
+	var repl func(e ast.Expr) ast.Expr
+	repl = func(e ast.Expr) ast.Expr {
+		if done[e] || skip[e] {
+			return nil
+		}
+		switch x := e.(type) {
+		case *ast.SelectorExpr:
+			if !rw.isFieldThroughPointer(x) {
+				return nil
+			}
+			done[x] = true
+			fn := "R"
+			if writes[x] {
+				fn = "W"
+			}
+			call := rw.simrt(fn, &ast.UnaryExpr{Op: token.AND, X: x}, str(rw.file+":"+rw.fieldSite(x)))
+			return &ast.ParenExpr{X: &ast.StarExpr{X: call}}
+		case *ast.IndexExpr:
+			if !rw.isMap(x.X) {
+				return nil
+			}
+			done[x] = true
+			fn := "MapR"
+			if writes[x] {
+				fn = "MapW"
+			}
+			x.X = rw.simrt(fn, x.X, str(rw.file+":"+rw.exprSite(x.X)))
+			return nil
+		case *ast.CallExpr:
+			if fnid, ok := x.Fun.(*ast.Ident); ok {
+				if _, isBuiltin := rw.info.Uses[fnid].(*types.Builtin); isBuiltin && len(x.Args) >= 1 && rw.isMap(x.Args[0]) {
+					switch fnid.Name {
+					case "delete":
+						done[x] = true
+						x.Args[0] = rw.simrt("MapW", x.Args[0], str(rw.file+":"+rw.exprSite(x.Args[0])))
+					case "len":
+						done[x] = true
+						x.Args[0] = rw.simrt("MapR", x.Args[0], str(rw.file+":"+rw.exprSite(x.Args[0])))
+					}
+				}
+			}
+			if se, ok := x.Fun.(*ast.SelectorExpr); ok && !done[x] {
+				if pk, ok := se.X.(*ast.Ident); ok {
+					if pn, ok := rw.info.Uses[pk].(*types.PkgName); ok && pn.Imported().Path() == "encoding/json" {
+						switch se.Sel.Name {
+						case "Marshal", "MarshalIndent":
+							done[x] = true
+							x.Args[0] = rw.simrt("ReachR", x.Args[0], str(rw.file+":json."+se.Sel.Name+"@"+rw.posSite(x)))
+						case "Unmarshal":
+							done[x] = true
+							x.Args[1] = rw.simrt("ReachW", x.Args[1], str(rw.file+":json.Unmarshal@"+rw.posSite(x)))
+						}
+					}
+				}
+			}
+		}
+		return nil
+	}
+	ast.Inspect(f, func(n ast.Node) bool {
+		if n == nil {
+			return false
+		}
+		v := reflect.ValueOf(n)
+		if v.Kind() != reflect.Ptr || v.IsNil() {
+			return true
+		}
+		// in-place edits for index / call expressions
+		if e, ok := n.(ast.Expr); ok {
+			switch e.(type) {
+			case *ast.IndexExpr, *ast.CallExpr:
+				repl(e)
+			}
+		}
+		v = v.Elem()
+		if v.Kind() != reflect.Struct {
+			return true
+		}
+		for i := 0; i < v.NumField(); i++ {
+			fl := v.Field(i)
+			if fl.Type() == exprType {
+				if fl.IsNil() {
+					continue
+				}
+				if r := repl(fl.Interface().(ast.Expr)); r != nil {
+					fl.Set(reflect.ValueOf(r))
+				}
+			} else if fl.Kind() == reflect.Slice && fl.Type().Elem() == exprType {
+				for j := 0; j < fl.Len(); j++ {
+					e := fl.Index(j)
+					if e.IsNil() {
+						continue
+					}
+					if r := repl(e.Interface().(ast.Expr)); r != nil {
+						e.Set(reflect.ValueOf(r))
+					}
+				}
+			}
+		}
+		return true
+	})
+}
+
+func unparen(e ast.Expr) ast.Expr {
+	for {
+		p, ok := e.(*ast.ParenExpr)
+		if !ok {
+			return e
+		}
+		e = p.X
+	}
+}
+
+func (rw *rewriter) posSite(n ast.Node) string {
+	p := rw.fset.Position(n.Pos())
+	return fmt.Sprintf("L%d", p.Line)
+}
+
+// fieldSite: "Type.field@Lline" - the line is only a hint for humans; known
+// findings are matched on the part before '@'.
+func (rw *rewriter) fieldSite(x *ast.SelectorExpr) string {
+	tn := "?"
+	if s := rw.info.Selections[x]; s != nil {
+		t := s.Recv()
+		if p, ok := t.Underlying().(*types.Pointer); ok {
+			t = p.Elem()
+		}
+		if p, ok := t.(*types.Pointer); ok {
+			t = p.Elem()
+		}
+		if n, ok := t.(*types.Named); ok {
+			tn = n.Obj().Name()
+		}
+	}
+	return tn + "." + x.Sel.Name + "@" + rw.posSite(x)
+}
+
+func (rw *rewriter) exprSite(e ast.Expr) string {
+	var b bytes.Buffer
+	format.Node(&b, rw.fset, e)
+	str := b.String()
+	if len(str) > 40 {
+		str = str[:40]
+	}
+	return "map(" + str + ")@" + rw.posSite(e)
 }
 
 // countMapRanges counts range statements over maps or channels that are still
